@@ -11,7 +11,8 @@
    event handled to completion. Protocols are numbered 0..n-1; `alive` says whether the receiving
    end of the protocol's channel still exists (a protocol whose event loop has ended, e.g. because
    the user dropped its handle, has a dead receiver). The model follows the code *after* the
-   `fix:` commit for F-C07a (a dead protocol no longer makes the loop exit; every exit reports).
+   `fix:` commits for F-C07a (a dead protocol no longer makes the loop exit; every exit reports) and
+   F-C07b (a dead protocol no longer makes accept fail).
 
    Not modelled: `.await` on a full protocol channel (a send parks the loop; it cannot fail other
    than by the receiver being gone), HashMap iteration order (notes are produced in index order;
@@ -49,17 +50,10 @@ Definition report_closed (al : list bool) (mgr_up : bool) : list note * bool :=
 
 Definition all_alive (al : list bool) : bool := forallb (fun b => b) al.
 
-(* the protocols that were served before the first failed send, as chosen by the implementation
-   (FuturesUnordered over a HashMap): an oracle `mask`, restricted to live protocols *)
-Fixpoint est_partial (k : nat) (al mask : list bool) : list note :=
-  match al with
-  | [] => []
-  | a :: t => (if a && hd false mask then [NEst k] else []) ++ est_partial (S k) t (tl mask)
-  end.
-
-(* ProtocolSet::report_connection_established: returns at the first failed send *)
-Definition report_established (al mask : list bool) : list note * bool :=
-  if all_alive al then (fst (send_all NEst al), true) else (est_partial 0 al mask, false).
+(* ProtocolSet::report_connection_established (after the `fix:` commit for F-C07b): every protocol,
+   a dead receiver is skipped; it does not fail *)
+Definition report_established (al : list bool) : list note * bool :=
+  (fst (send_all NEst al), true).
 
 (* ProtocolSet::report_substream_open / report_substream_open_failure: one send to one protocol *)
 Definition report_sub_open (al : list bool) (i : nat) (outbound : bool) : list note * bool :=
@@ -203,9 +197,10 @@ Fixpoint crun (t : task) (es : list cev) : task * list note :=
   | e :: r => let '(t1, n1) := cstep t e in let '(t2, n2) := crun t1 r in (t2, n1 ++ n2)
   end.
 
-(* TcpTransport::accept: tell the protocols, and only if that worked spawn the event loop *)
-Definition accept (al : list bool) (mup : bool) (mask : list bool) : option task * list note :=
-  let '(ns, ok) := report_established al mask in
+(* TcpTransport::accept (same in websocket / quic): tell the protocols, then spawn the event loop;
+   `report_connection_established(..).await?` can no longer fail *)
+Definition accept (al : list bool) (mup : bool) : option task * list note :=
+  let '(ns, ok) := report_established al in
   if ok then (Some (mkTask al mup None), ns) else (None, ns).
 
 (* the termination causes of the property text *)
@@ -308,7 +303,7 @@ Record node := mkNode {
 
 Inductive nev :=
 | NMgr (e : Model.ev)                      (* an event of the manager loop other than AcceptDone / Closed *)
-| NAccept (c : Model.conn) (mask : list bool)   (* the accept future of c runs to completion *)
+| NAccept (c : Model.conn)                 (* the accept future of c runs to completion *)
 | NTask (c : Model.conn) (e : cev)         (* the task of connection c handles one loop event *)
 | NProtoDie (i : nat).                     (* a protocol of this node exits *)
 
@@ -350,11 +345,11 @@ Definition node_step (L : Model.limits) (nd : node) (e : nev) : node * (list nou
       else
         let '(m1, os) := Model.step L (nd_mgr nd) me in
         (mkNode m1 (nd_alive nd) (nd_tasks nd), (map OMgr os, [me]))
-  | NAccept c mask =>
+  | NAccept c =>
       match Model.lookup c (Model.accepting (nd_mgr nd)) with
       | None => (nd, ([], []))
       | Some (p, _) =>
-          let '(ot, ns) := accept (nd_alive nd) true mask in
+          let '(ot, ns) := accept (nd_alive nd) true in
           let ok := match ot with Some _ => true | None => false end in
           let '(m1, os) := Model.step L (nd_mgr nd) (Model.AcceptDone c ok) in
           (mkNode m1 (nd_alive nd)
